@@ -11,9 +11,10 @@ ARITH = ["Add"] * 4 + ["Sub"] * 3 + ["Mul"] * 3 + ["Div"] * 2 + ["Mod"] * 2 + ["
 CMPS = ["Lt", "Le", "Gt", "Ge", "Eq", "Ne"]
 
 BL = ("bytes", "string")
+PRIMS = ("int", "bool", "addr", "flag")
 PRINTABLE = b"abcdefghijklmnopqrstuvwxyzABCDEFGHIJKLMNOPQRSTUVWXYZ0123456789 _-+*/.,:;!?()[]{}<>=#@%&^~|"
 
-ALL_FEATURES = {"probes", "maps", "reasons", "bytes", "strings", "shifts", "pow", "convert", "ifexp", "minmax", "bitops", "internal", "loops", "arrays", "dynarrays", "structs",
+ALL_FEATURES = {"probes", "maps", "reasons", "bytes", "strings", "shifts", "pow", "defaults", "ctor", "flags", "convert", "ifexp", "minmax", "bitops", "internal", "loops", "arrays", "dynarrays", "structs",
                 "transient", "sender", "value", "fordyn", "forin"}
 
 
@@ -25,6 +26,7 @@ class Ctx:
         self.nloc = 0
         self.loop_depth = 0
         self.iter_locked = set()   # storage/transient names being iterated (may not be modified)
+        self.is_ctor = False
 
 
 class Gen:
@@ -41,6 +43,8 @@ class Gen:
 
     def prim_type(self):
         x = self.r.random()
+        if getattr(self, "flag_types", None) and x > 0.9:
+            return self.r.choice(self.flag_types)
         if x < 0.2:
             return BOOL
         if x < 0.25 and "sender" in self.feat:
@@ -49,6 +53,8 @@ class Gen:
 
     def lit_val(self, t):
         r = self.r
+        if t[0] == "flag":
+            return r.randrange(0, 2 ** t[2]) if r.random() < 0.8 else r.choice([0, 2 ** t[2] - 1])
         if t[0] == "bool":
             return r.random() < 0.5
         if t[0] == "addr":
@@ -95,7 +101,7 @@ class Gen:
             if vt == t:
                 out.append(E("var", t, name=name, id=vid))
         for i, (name, vt) in enumerate(self.prog.sto):
-            if vt == t:
+            if vt == t and not (cx.is_ctor and name in self.prog.imm):
                 out.append(E("self", t, name=name, id=i))
         for i, (name, vt) in enumerate(self.prog.tra):
             if vt == t:
@@ -136,8 +142,8 @@ class Gen:
         x = r.random()
         if n > 0 and x < 0.5:
             return E("const", U256, v=r.randrange(n))
-        if x < 0.6 and not static:
-            return E("const", U256, v=max(n, 0) + r.randrange(2))    # out of range
+        if x < 0.6 and not static and n >= 2:
+            return E("const", U256, v=n + r.randrange(2))    # possibly beyond the live length (run-time check); < capacity
         e = self.nonlit(cx, scope, U256, d - 1)
         if e is None:
             return E("const", U256, v=r.randrange(max(n, 1)))
@@ -207,7 +213,7 @@ class Gen:
         return E("idx", t, a=base, i=self.index_expr(cx, scope, n_of(c[1].ty[1]), d, static=(c[1].ty[1])[0] == "sarr"))
 
     def callable_funs(self, cx, t, any_ret=False):
-        if "internal" not in self.feat:
+        if "internal" not in self.feat or cx.is_ctor:
             return []
         out = []
         for i, f in enumerate(self.prog.ints):
@@ -220,7 +226,11 @@ class Gen:
     def call_expr(self, cx, scope, i, d):
         f = self.prog.ints[i]
         args = [self.expr(cx, scope, pt, min(d - 1, 1)) for _, pt in f.params]
-        return E("call", f.ret if f.ret is not None else None, name=f.name, id=i, args=args)
+        given = None
+        if f.defaults and self.r.random() < 0.6:
+            given = self.r.randrange(len(f.params) - len(f.defaults), len(f.params) + 1)
+            args = args[:given] + [f.defaults[j].clone() for j in range(given, len(f.params))]
+        return E("call", f.ret if f.ret is not None else None, name=f.name, id=i, args=args, given=given)
 
     def nonlit(self, cx, scope, t, d):
         """an expression of type t that is not a compile-time constant; None if impossible at depth 0"""
@@ -255,16 +265,20 @@ class Gen:
             opts += ["cmp"] * 4 + ["and", "or", "not"]
             if self.bytes_leaves(cx, scope, 10 ** 6):
                 opts += ["bcmp"]
+            if getattr(self, "flag_types", None):
+                opts += ["flagin", "flagcmp"]
             if "convert" in self.feat:
                 opts += ["conv"]
         elif t == ADDR:
             if "sender" in self.feat:
                 opts += ["sender"] * 2
+        elif t[0] == "flag":
+            opts += ["flagbit"] * 3 + ["flagnot"]
         if "ifexp" in self.feat and t[0] in ("int", "bool"):
             opts += ["ifexp"]
         if self.callable_funs(cx, t):
             opts += ["call"] * 3
-        if t[0] in ("int", "bool", "addr") and (self.feat & {"arrays", "dynarrays", "structs"}):
+        if t[0] in PRIMS and (self.feat & {"arrays", "dynarrays", "structs"}):
             opts += ["sub"] * 2
         if not opts:
             return None
@@ -340,6 +354,27 @@ class Gen:
             if r.random() < 0.3:
                 a, b = b, a
             return E("cmp", BOOL, op=op, a=a, b=b)
+        if k in ("flagbit", "flagnot"):
+            a = self.nonlit(cx, scope, t, d - 1)
+            if a is None:
+                return None
+            if k == "flagnot":
+                return E("flagnot", t, a=a)
+            b = self.expr(cx, scope, t, d - 1)
+            if r.random() < 0.4:
+                a, b = b, a
+            return E("bin", t, op=r.choice(["BAnd", "BOr", "BXor"]), a=a, b=b)
+        if k in ("flagin", "flagcmp"):
+            ft = r.choice(self.flag_types)
+            a = self.nonlit(cx, scope, ft, d - 1)
+            if a is None:
+                return None
+            b = self.expr(cx, scope, ft, d - 1)
+            if r.random() < 0.4:
+                a, b = b, a
+            if k == "flagcmp":
+                return E("cmp", BOOL, op=r.choice(["Eq", "Ne"]), a=a, b=b)
+            return E("flagin", BOOL, neg=r.random() < 0.4, a=a, b=b)
         if k == "bcmp":
             a = self.bytes_expr(cx, scope, 10 ** 6, 1, nonlit=True)
             b = self.bytes_expr(cx, scope, 10 ** 6, 1)
@@ -524,7 +559,7 @@ class Gen:
             if m and pred(vt):
                 out.append((("loc", name, vid), [], vt))
         for i, (name, vt) in enumerate(self.prog.sto):
-            if pred(vt) and name not in cx.iter_locked:
+            if pred(vt) and name not in cx.iter_locked and name not in self.prog.imm:
                 out.append((("sto", name, i), [], vt))
         for i, (name, vt) in enumerate(self.prog.tra):
             if pred(vt) and name not in cx.iter_locked:
@@ -539,7 +574,7 @@ class Gen:
             if m:
                 roots.append((("loc", name, vid), vt))
         for i, (name, vt) in enumerate(self.prog.sto):
-            if name not in cx.iter_locked:
+            if name not in cx.iter_locked and name not in self.prog.imm:
                 roots.append((("sto", name, i), vt))
         for i, (name, vt) in enumerate(self.prog.tra):
             if name not in cx.iter_locked:
@@ -582,8 +617,10 @@ class Gen:
             kinds += ["append"] * 3 + ["pop"] * 2
         if last and cx.loop_depth > 0:
             kinds += ["brk"] * 6
-        if last and d > 0:
+        if last and d > 0 and not cx.is_ctor:
             kinds += ["ret_if"]
+        if cx.is_ctor:
+            kinds = [k_ for k_ in kinds if k_ not in ("log", "idiom", "copyidiom")]
         k = r.choice(kinds)
         ed = 2 if r.random() < 0.7 else 3
         if k == "idiom":
@@ -764,7 +801,7 @@ class Gen:
                 return None if not path else None
             else:
                 break
-        if t[0] in ("int", "bool", "addr"):
+        if t[0] in PRIMS:
             return path, t
         return None
 
@@ -875,7 +912,7 @@ class Gen:
         cx.loop_depth += 1
         try:
             if "forin" in self.feat and x < 0.25:
-                cs = [c for c in self.containers(cx, scope) if c.ty[0] in ("sarr", "darr") and c.ty[1][0] in ("int", "bool", "addr")]
+                cs = [c for c in self.containers(cx, scope) if c.ty[0] in ("sarr", "darr") and c.ty[1][0] in PRIMS]
                 if cs:
                     c = r.choice(cs)
                     name, vid = self.new_local(cx, c.ty[1])
@@ -957,7 +994,18 @@ class Gen:
         if ret is not None:
             body.append(S("return", e=self.expr(cx, scope, ret, 2)))
         name = f"f{idx}" if external else f"g{idx}"
-        return Fun(name, params, ret, body, external, payable)
+        defaults = {}
+        if "defaults" in self.feat and params and r.random() < 0.3:
+            k = r.randrange(1, len(params) + 1)
+            for i in range(len(params) - k, len(params)):
+                if params[i][1][0] not in PRIMS:
+                    defaults = {}
+                    break
+                defaults[i] = self.lit(params[i][1])
+            # defaults must form a suffix
+            if defaults and sorted(defaults) != list(range(len(params) - len(defaults), len(params))):
+                defaults = {}
+        return Fun(name, params, ret, body, external, payable, defaults=defaults)
 
     def bytes_probe_function(self, idx):
         """slice / concat / equality of Bytes on the arguments, called at the boundaries (exact end, one past the end, empty)"""
@@ -1133,6 +1181,21 @@ class Gen:
         op = r.choice(["Div", "Mod", "Div", "Mod", "Mul", "Add", "Sub", "cmp", "min"])
         x, y = cv(), cv()
 
+        def fits(x, y):
+            # venom rejects a program whose assertion provably always fails (StaticAssertionException): keep the
+            # constant computation inside the type
+            if op == "Div":
+                q = abs(x) // abs(y) * (1 if (x < 0) == (y < 0) else -1)
+                return lo <= q <= hi
+            v = {"Mul": x * y, "Add": x + y, "Sub": x - y}.get(op, 0)
+            return lo <= v <= hi
+        for _ in range(20):
+            if fits(x, y):
+                break
+            x, y = cv(), cv()
+        else:
+            x, y = 1, 1
+
         def mk(a, b):
             if op == "cmp":
                 return E("cmp", BOOL, op=r.choice(CMPS), a=a, b=b)
@@ -1183,6 +1246,26 @@ class Gen:
                 a, b = b, a
             out.append([a % W, b % W])
         return out
+
+    def ctor_function(self):
+        """@deploy __init__(args): ordinary statements on storage, then every immutable is assigned exactly once"""
+        r = self.r
+        cx = Ctx(0, True, None, False)
+        cx.is_ctor = True
+        scope, params = [], []
+        for _ in range(r.randrange(0, 3)):
+            t = self.prim_type()
+            name = f"a{cx.next_id}"
+            scope.append((name, cx.next_id, t, False))
+            params.append((name, t))
+            cx.next_id += 1
+        body = self.block(cx, scope, r.randrange(1, 4), 1, False)
+        for i, (name, t) in enumerate(self.prog.sto):
+            if name in self.prog.imm:
+                body.append(S("assign", base=("sto", name, i), path=[], e=self.expr(cx, scope, t, 2), decl=None))
+        f = Fun("__init__", params, None, body, True)
+        f.deploy = True
+        return f
 
     def compute_writes(self, i, f):
         """storage/transient names function i may modify (transitively through callees)"""
@@ -1270,6 +1353,13 @@ class Gen:
             for i in range(r.randrange(1, 3)):
                 t = r.choice(self.comp_types) if (self.comp_types and r.random() < 0.3) else self.prim_type()
                 p.tra.append((f"t{i}", t))
+        if "ctor" in self.feat and r.random() < 0.4:
+            prims = [name for name, t in p.sto if t[0] in PRIMS]
+            r.shuffle(prims)
+            p.imm = set(prims[:r.randrange(0, 3)])
+            want_ctor = True
+        else:
+            want_ctor = False
         nint = r.randrange(0, 4) if "internal" in self.feat else 0
         for i in range(nint):
             f = self.function(i, False)
@@ -1277,6 +1367,8 @@ class Gen:
             self.compute_writes(i, f)
         for i in range(r.randrange(1, 4)):
             p.exts.append(self.function(i, True))
+        if want_ctor:
+            p.ctor = self.ctor_function()
         if "probes" in self.feat:
             for _ in range(2):
                 p.exts.append(self.probe_function(len(p.exts)))
@@ -1294,6 +1386,8 @@ class Gen:
         if t[0] == "bool":
             x = r.random()
             return 2 if x < 0.03 else int(x < 0.5)
+        if t[0] == "flag":
+            return r.randrange(0, 2 ** t[2]) if r.random() > 0.06 else r.choice([2 ** t[2], 2 ** 255])
         if t[0] == "addr":
             return r.choice([0, 1, int(SENDER2, 16), 2 ** 160 - 1]) if r.random() > 0.03 else 2 ** 160
         lo, hi = int_bounds(t)
@@ -1316,12 +1410,14 @@ class Gen:
             ln = r.choice([0, 1, 2, 5, 31, 32, 33, t[1], t[1], t[1] + (1 if r.random() < 0.15 else 0)])
             ln = min(ln, t[1] + 1)
             return self.rand_bytes(ln, t[0])
-        if t[0] in ("int", "bool", "addr"):
+        if t[0] in PRIMS:
             w = self.arg_word(t)
             if t[0] == "bool":
                 return bool(w & 1)
             if t[0] == "addr":
                 return w % 2 ** 160
+            if t[0] == "flag":
+                return w % 2 ** t[2]
             lo, hi = int_bounds(t)
             if t[2] and w >= 2 ** 255:
                 w -= 2 ** 256
@@ -1333,18 +1429,32 @@ class Gen:
         return [self.arg_tree(ft) for _, ft in t[2]]
 
     def calls(self, prog, n):
+        out = self.calls_body(prog, n)
+        if prog.ctor is not None:
+            c = Call(0, [self.arg_word(t) if t[0] in PRIMS else self.arg_tree(t) for _, t in prog.ctor.params])
+            c.deploy = True
+            out.insert(0, c)
+        return out
+
+    def calls_body(self, prog, n):
         out = []
         for _ in range(n):
             i = self.r.randrange(len(prog.exts))
             f = prog.exts[i]
-            args = [self.arg_word(t) if t[0] in ("int", "bool", "addr") else self.arg_tree(t) for _, t in f.params]
+            args = [self.arg_word(t) if t[0] in PRIMS else self.arg_tree(t) for _, t in f.params]
             value = 0
             x = self.r.random()
             if "value" in self.feat and (f.payable and x < 0.6 or x < 0.15):
                 # non-payable functions also get non-zero values, odd AND even (the non-payable check must reject both)
                 value = self.r.choice([1, 2, 2, 4, 7, 256, 10 ** 18, 2 ** 64])
             sender = SENDER2 if ("sender" in self.feat and self.r.random() < 0.4) else DEPLOYER
-            out.append(Call(i, args, sender, value))
+            given = None
+            if f.defaults and self.r.random() < 0.6:
+                given = self.r.randrange(len(f.params) - len(f.defaults), len(f.params) + 1)
+                for j in range(given, len(f.params)):
+                    dv = f.defaults[j].v
+                    args[j] = int(dv) % (2 ** 256)
+            out.append(Call(i, args, sender, value, given))
         for i, f in enumerate(prog.exts):
             if getattr(f, "probe", None) is not None:
                 pairs = f.probe_calls if getattr(f, "probe_calls", None) else self.probe_args(f.probe)
